@@ -334,7 +334,7 @@ fn check_markers(code: &[u8], acc: &mut Acc) -> CaseResult {
 }
 
 fn run_shard(ctx: &ShardCtx, acc: &mut Acc) {
-    drive(ctx, "cf", ctx.tier.pick(40_000, 400_000), 600, acc, &|ch, acc| {
+    drive(ctx, "cf", ctx.tier.pick(120_000, 500_000), 600, acc, &|ch, acc| {
         let back = ch.chance(1, 4);
         let p = g_cf(
             ch,
